@@ -527,6 +527,11 @@ def _quantile_linear(sorted_vals, q):
         return float("nan")
     if math.isnan(q):
         return float("nan")
+    if not np.all(np.isfinite(np.asarray(sorted_vals, dtype=float))):
+        # infinite replicates: what "linear interpolation between order statistics" means next to +-inf (inf - inf,
+        # 0 * inf) is NumPy's business, not the library's; the reference uses the same primitive there
+        with np.errstate(all="ignore"):
+            return float(np.quantile(np.asarray(sorted_vals, dtype=float), min(max(q, 0.0), 1.0)))
     h = (n - 1) * q
     lo = int(math.floor(h))
     hi = min(lo + 1, n - 1)
@@ -602,4 +607,10 @@ def close(a, b, tol=1e-9):
     if not np.array_equal(na, nb):
         return False
     m = ~na
-    return bool(np.all(np.abs(a[m] - b[m]) <= tol + tol * np.abs(b[m]))) if m.any() else True
+    if not m.any():
+        return True
+    fa, fb = np.isfinite(a[m]), np.isfinite(b[m])
+    if not np.array_equal(fa, fb) or not np.array_equal(a[m][~fa], b[m][~fb]):  # infinities must match exactly
+        return False
+    x, y = a[m][fa], b[m][fb]
+    return bool(np.all(np.abs(x - y) <= tol + tol * np.abs(y)))
